@@ -10,6 +10,10 @@
  *              =3  pass       accessor: the runtime accessor is called once, with the user's array / index / value
  *                             UNMODIFIED, and its result is what the generated function returns          (C08.nat.tmpl)
  *   -DVERIF_SMALL              value mode of mul/div/mod restricted to operands in [-128,127]  (bounded stand-in, label B)
+ *   -DVERIF_FMASK=<k>          value mode of mulf/divf restricted to operands whose k low fraction bits are zero (bounded, label B)
+ *   -DSPEC_STRMAX=<n>          streq/strne: NUL-terminated strings of length <= n in buffers of n+1 bytes (bounded, label B)
+ * String == / != : spec = content equality (contracts/spec_str.h spec_streq); float operators: spec = the C double operation on
+ * (a, b) in that order, arithmetic results compared as bit patterns (spec_f64_bits).
  *
  * Runtime accessors (dyn_array_get_int, ...) are NOT under proof here (that is C08.nat.<op>.<kind> / C20.dyn.*): they are
  * STUB BODIES that record their arguments in the one ghost struct __verif_t and return ghost inputs that are never assigned
@@ -270,6 +274,18 @@ DynArray *dyn_array_remove_at(DynArray *arr, int64_t index) { STUB_REC(arr, inde
 #define PASS(c) 1
 #endif
 #define CALLED_ONCE_WITH(a, i) (__verif_t.calls == 1 && __verif_t.arr == (const void *)(a) && __verif_t.index == (i))
+
+/* libc string functions the generated helpers may call and CBMC 6.11 has NO library model for (a bodiless callee is
+ * `assert(false)` under --dfcc, which would refute an obligation for a reason that is not the property): POSIX.1-2008 definition
+ * as a body - an ASSUMED contract of a dependency.  strcmp / strncmp / strlen are CBMC's own models. */
+#if TMPL_SHAPE == SH_STRCMP
+size_t strnlen(const char *s, size_t maxlen)
+{
+    size_t n = 0;
+    while (n < maxlen && s[n] != 0) n++;
+    return n;
+}
+#endif
 
 /* ---- contracts, on forward declarations BEFORE the generated text is brought in ---- */
 #if TMPL_SHAPE == SH_BIN_INT
